@@ -85,8 +85,9 @@ fn algebra_cases(run: &mut Run, rng: &mut Rng) {
                 let a = gen_sel(rng, Some(total));
                 let selected: usize = a.iter().filter(|(_, k)| !*k).map(|(n, _)| *n).sum();
                 // `other` covers exactly the selected rows most of the time; too short / too long sometimes
+                let extra = 1 + rng.below(3) as usize;
                 let b = match rng.below(6) {
-                    0 => gen_sel(rng, Some(selected + 1 + rng.below(3) as usize)),
+                    0 => gen_sel(rng, Some(selected + extra)),
                     1 if selected > 0 => gen_sel(rng, Some(selected - 1)),
                     _ => gen_sel(rng, Some(selected)),
                 };
@@ -256,8 +257,8 @@ fn sub_multiset(small: &[String], big: &[String]) -> bool {
 }
 
 fn scan_oracle(run: &mut Run, rng: &mut Rng) {
-    let n_sets = run.budget(5, 80);
-    let preds_per_set = run.budget(4, 12);
+    let n_sets = run.budget(20, 80);
+    let preds_per_set = run.budget(6, 12);
     let rt = tokio::runtime::Builder::new_current_thread().enable_all().build().unwrap();
     let dir = tempfile::tempdir().unwrap();
     for set in 0..n_sets {
@@ -331,7 +332,13 @@ fn scan_oracle(run: &mut Run, rng: &mut Rng) {
                 run.count(&format!("options_{c:05b}"));
                 match got {
                     Err(p) => run.oracle(false, &format!("panic {sig}"), &p),
-                    Ok(Err(e)) => run.oracle(false, &format!("error {sig}"), &e.to_string()),
+                    Ok(Err(e)) => {
+                        let msg = e.to_string();
+                        // the class of the recorded finding gets its own signature prefix
+                        let class = if pushdown && msg.contains("Invalid offset in sparse column chunk data") { "error[sparse-mask-offset]" } else { "error" };
+                        run.count(if class == "error" { "scan_error_other" } else { "scan_error_sparse_mask_offset" });
+                        run.oracle(false, &format!("{class} {sig}"), &msg)
+                    }
                     Ok(Ok(bs)) => {
                         let mut rows = fmt_rows(&bs);
                         rows.sort();
@@ -359,8 +366,59 @@ fn scan_oracle(run: &mut Run, rng: &mut Rng) {
     }
 }
 
+/// Corpus: the minimised failing input of the finding recorded in notes/C24.md / known_findings.json.
+/// One file, one row group of 8 rows, data pages of 3 rows, dictionary on, chunk-level statistics;
+/// `pushdown_filters=true`, `batch_size=2`; two row filters (`a + b <= 6` over columns a,b and
+/// `s NOT LIKE 'q%'` over column s) with `SELECT *`.  Rows 0 and 6 match.
+fn corpus(run: &mut Run) {
+    let rt = tokio::runtime::Builder::new_current_thread().enable_all().build().unwrap();
+    let dir = tempfile::tempdir().unwrap();
+    let a = [10i64, 16, 22, 22, 27, 29, 1, 18];
+    let b = [-5i64, 11, 6, 2, 10, 10, -3, 12];
+    let rows: Vec<(i64, Option<i64>, Option<String>)> = (0..8).map(|i| (a[i], Some(b[i]), Some(format!("ab{}", i % 3)))).collect();
+    let f = FileSpec { rows, rg: 1000, page: 3, stats: EnabledStatistics::Chunk, bloom: false, dict: true, layout: "corpus" };
+    write_file(&dir.path().join("f.parquet"), &f);
+    let sql = "SELECT * FROM t WHERE a + b <= 6 AND s NOT LIKE 'q%'";
+    let mut outcomes = vec![];
+    for pushdown in [false, true] {
+        let cfg = SessionConfig::new()
+            .with_target_partitions(1)
+            .with_batch_size(2)
+            .set_bool("datafusion.execution.parquet.pushdown_filters", pushdown)
+            .set_bool("datafusion.execution.parquet.schema_force_view_types", false);
+        let ctx = SessionContext::new_with_config(cfg);
+        let path = dir.path().to_str().unwrap().to_string();
+        let r = rt.block_on(async {
+            ctx.register_parquet("t", &path, ParquetReadOptions::default()).await?;
+            ctx.sql(sql).await?.collect().await
+        });
+        outcomes.push(match r {
+            Ok(bs) => {
+                let mut rows = fmt_rows(&bs);
+                rows.sort();
+                Ok(rows)
+            }
+            Err(e) => Err(e.to_string()),
+        });
+    }
+    let want = vec!["10|-5|ab0".to_string(), "1|-3|ab0".to_string()];
+    let mut want_sorted = want.clone();
+    want_sorted.sort();
+    run.oracle(outcomes[0] == Ok(want_sorted.clone()), "corpus#1 pushdown_filters=false", &format!("{:?}", outcomes[0]));
+    let class = match &outcomes[1] {
+        Err(e) if e.contains("Invalid offset in sparse column chunk data") => "error[sparse-mask-offset] ",
+        _ => "",
+    };
+    run.oracle(
+        outcomes[1] == Ok(want_sorted),
+        &format!("{class}corpus#1 pushdown_filters=true batch_size=2 page_rows=3 dict=true a={a:?} b={b:?} s=ab(i%3) `{sql}`"),
+        &format!("expected rows 0 and 6, got {:?}", outcomes[1]),
+    );
+}
+
 pub fn run(run: &mut Run, args: &Args) {
     hutil::quiet_panics();
+    corpus(run);
     let mut rng = Rng::new(args.seed);
     algebra_cases(run, &mut rng);
     scan_oracle(run, &mut rng);
